@@ -84,6 +84,11 @@ impl Shared {
     }
 }
 
+thread_local! {
+    /// set while crash points are enumerated for a history whose only failure is the C07 probe
+    static NO_PROBE: Cell<bool> = const { Cell::new(false) };
+}
+
 pub struct Outcome {
     pub violation: Option<String>,
     pub actions: Vec<String>,
@@ -210,7 +215,7 @@ fn inner(seed: u64, actions: &mut Vec<String>, stats: &mut (bool, u64, u64), fau
                 sh.tick("observability_cb");
                 sh.obs_changes.borrow_mut().push(b);
                 sh.e_observable.set(b);
-                if let Some(o) = sh.probe.borrow().as_ref().and_then(|w| w.upgrade()) {
+                if let Some(o) = sh.probe.borrow().as_ref().and_then(|w| w.upgrade()).filter(|_| !NO_PROBE.with(|c| c.get())) {
                     sh.probe_reads.set(sh.probe_reads.get() + 1);
                     let r = o.try_get_value();
                     if r != Err(ObserverError::CurrentlyStabilising) {
@@ -646,14 +651,44 @@ pub fn run_faults(seed: u64, shard: u64, count: u64, progress: Option<&str>) -> 
     let mut samples = vec![];
     for i in 0..count {
         let hseed = mix(mix(seed, shard), i);
+        NO_PROBE.with(|c| c.set(false));
         let mut actions = vec![];
         let mut stats = (false, 0, 0);
         let mut rounds = vec![];
         let clean = catch_unwind(AssertUnwindSafe(|| inner(hseed, &mut actions, &mut stats, None, &mut rounds)));
         if !matches!(clean, Ok(Ok(()))) {
-            continue;
+            // the history fails without any injected panic: that is a finding of the ordinary
+            // expert monitors, not something to skip silently
+            let m = match clean {
+                Ok(Err(m)) => m,
+                Err(e) => format!("[C04] panic: {}", crate::panic_message(e)),
+                Ok(Ok(())) => unreachable!(),
+            };
+            if violations.len() < 10 {
+                let prop = ["C04", "C05", "C07", "C12"].into_iter().find(|p| m.starts_with(&format!("[{p}]"))).unwrap_or("C14");
+                violations.push(J::obj(vec![
+                    ("property", J::s(prop)),
+                    ("message", J::s(format!("expert workload (run without injected panic, before enumerating crash points): {m}; history {:?}", actions))),
+                    ("argv", J::Arr(vec![J::s("expert-one"), J::s(hseed.to_string())])),
+                ]));
+            }
+            if !m.starts_with("[C07]") {
+                continue;
+            }
+            // still enumerate this history's crash points, with the probe read switched off
+            NO_PROBE.with(|c| c.set(true));
+            actions.clear();
+            rounds.clear();
+            let again = catch_unwind(AssertUnwindSafe(|| inner(hseed, &mut actions, &mut stats, None, &mut rounds)));
+            if !matches!(again, Ok(Ok(()))) {
+                NO_PROBE.with(|c| c.set(false));
+                continue;
+            }
         }
-        let Some((round, n)) = rounds.iter().rev().find(|r| r.1 > 0).copied() else { continue };
+        let Some((round, n)) = rounds.iter().rev().find(|r| r.1 > 0).copied() else {
+            NO_PROBE.with(|c| c.set(false));
+            continue;
+        };
         for off in 0..n.min(60) {
             if let Some(p) = progress {
                 let _ = std::fs::write(p, format!("expert {i} {hseed} {round} {off}\n"));
